@@ -60,6 +60,63 @@ theorem refused_at_limit (max : Nat) (s s' : St) (h : Step max s s') (hfull : ma
   | unregFire c _ _ _ => simp only; split <;> omega
   | unregNoop c _ _ _ => exact Int.le_refl _
 
+/-! ### MaxConnections is a runtime-tunable bound -/
+
+/-- the accounting steps with a (positive) limit that the operator may change between any two of them -/
+inductive StepV : St × Nat → St × Nat → Prop
+  | step (m : Nat) (s s' : St) (h : Step m s s') : StepV (s, m) (s', m)
+  | setMax (s : St) (m m' : Nat) (hpos : 0 < m') : StepV (s, m) (s, m')
+
+/-- `ReachV hi (s, m)`: reachable with limit changes; `hi` is the largest limit that has been in force -/
+inductive ReachV : Nat → St × Nat → Prop
+  | init (m : Nat) (hpos : 0 < m) : ReachV m (init, m)
+  | step (hi : Nat) (x y : St × Nat) (h : ReachV hi x) (hs : StepV x y) : ReachV (Nat.max hi y.2) y
+
+/-- lowered below the number of open connections, the limit admits nobody: while the count is at or above the limit in
+    force, no step makes it grow (the count only falls until it is below the limit again) -/
+theorem lowered_limit_admits_nobody (s s' : St) (m m' : Nat) (h : StepV (s, m) (s', m')) (hm : m > 0) (hge : s.count ≥ m) :
+    s'.count ≤ s.count := by
+  cases h with
+  | step _ _ _ hs => exact refused_at_limit m s s' hs ⟨hm, hge⟩
+  | setMax _ _ _ _ => exact Int.le_refl _
+
+/-- … and the count never exceeds the largest limit that has been in force -/
+theorem bounded_by_largest_limit (hi : Nat) (x : St × Nat) (h : ReachV hi x) :
+    0 < x.2 ∧ x.2 ≤ hi ∧ x.1.count ≤ hi := by
+  induction h with
+  | init m hpos => exact ⟨hpos, Nat.le_refl _, by simp [init]⟩
+  | step hi x y _ hs ih =>
+    obtain ⟨hp, hle, hc⟩ := ih
+    cases hs with
+    | step m s s' hstep =>
+      simp only at hp hle hc ⊢
+      refine ⟨hp, Nat.le_max_right _ _, ?_⟩
+      have hmax : (Nat.max hi m : Int) = hi := by
+        have : Nat.max hi m = hi := Nat.max_eq_left hle
+        rw [this]
+      rw [hmax]
+      cases hstep with
+      | accept id _ hroom =>
+        rcases hroom with h0 | h1
+        · omega
+        · simp only; omega
+      | reject _ => exact hc
+      | unregLookup c _ _ => exact hc
+      | unregFire c _ _ _ => simp only; split <;> omega
+      | unregNoop c _ _ _ => exact hc
+    | setMax s m m' hpos =>
+      simp only at hp hle hc ⊢
+      refine ⟨hpos, Nat.le_max_right _ _, ?_⟩
+      have : (hi : Int) ≤ (Nat.max hi m' : Int) := by
+        have := Nat.le_max_left hi m'
+        exact_mod_cast this
+      omega
+
+example : ReachV 4 (init, 2) := by
+  have h0 := ReachV.init 4 (by decide)
+  have := ReachV.step 4 (init, 4) (init, 2) h0 (StepV.setMax init 4 2 (by decide))
+  simpa using this
+
 /-- Close ∘ Close = Close on what Close is responsible for (handles released, caches cleared, server stopped):
     the cleared state is a fixed point. -/
 structure Resources where
